@@ -454,7 +454,19 @@ func Neighbour(sys semver.System, base string) *rapid.Generator[string] {
 				return base + rapid.SampledFrom([]string{".0", ".1", ".a", "-", "0"}).Draw(t, "preext")
 			}
 			return base
-		case 7: // leading v
+		case 7: // leading v; for PEP 440 also the explicit zero epoch
+			if sys == semver.PyPI && rapid.Bool().Draw(t, "epochtoggle") {
+				if i := strings.IndexByte(base, '!'); i >= 0 {
+					if strings.Trim(base[:i], "0") == "" {
+						return base[i+1:]
+					}
+					return base
+				}
+				if !strings.HasPrefix(base, "v") && !strings.HasPrefix(base, "V") {
+					return rapid.SampledFrom([]string{"0!", "0!", "00!"}).Draw(t, "zeroepoch") + base
+				}
+				return base
+			}
 			switch sys {
 			case semver.NPM, semver.Composer, semver.PyPI:
 				if !strings.HasPrefix(base, "v") && !strings.ContainsRune(base, '!') {
